@@ -1,4 +1,178 @@
-//! engine `utf8` (stub)
-pub fn run(_fields: &[&str]) -> String {
-    "unimplemented".to_string()
+//! engine `utf8` (C10): byte-stream front ends.
+//!
+//! `utf8<TAB>dec<TAB><chunks>`      chunks = bytes in hex, `|`-separated (`-` = empty chunk)
+//!     runs `Utf8LossyDecoder` over a recording sink; output = the sink calls in order,
+//!     `t:<hex bytes>` for `process`, `e` for `error`, `;`-separated (`-` if none).
+//! `utf8<TAB>std<TAB><bytes>`       `core::str::from_utf8`: `ok` | `err <valid_up_to> <error_len|->`
+//! `utf8<TAB>enc<TAB><label><TAB><chunks>`
+//!     `LossyDecoder::new_encoding_rs` fed chunk by chunk vs a reference one-shot decode of the
+//!     concatenation with the same encoding_rs decoder driven to completion (last = true):
+//!     `S=<hex code points> <#errors> ## W=<hex code points> <#errors>`; plus ` D=<hex>` = `Encoding::decode`.
+//! `utf8<TAB>parse<TAB>html|xml<TAB><chunks>`
+//!     `parse_document(RcDom).from_utf8()` fed chunk by chunk vs `.one(String::from_utf8_lossy(all))`:
+//!     `T=<tree dump> ## T=<tree dump>`.
+use super::meta::dump_dom;
+use crate::proto::*;
+use markup5ever_rcdom::RcDom;
+use std::borrow::Cow;
+use tendril::stream::{LossyDecoder, TendrilSink, Utf8LossyDecoder};
+use tendril::{fmt, ByteTendril, StrTendril, Tendril};
+
+#[derive(Default)]
+struct Rec {
+    events: Vec<String>,
+    text: String,
+    errors: usize,
+}
+
+impl TendrilSink<fmt::UTF8> for Rec {
+    fn process(&mut self, t: Tendril<fmt::UTF8>) {
+        self.events.push(format!("t:{}", show_bytes(t.as_bytes())));
+        self.text.push_str(&t);
+    }
+    fn error(&mut self, _desc: Cow<'static, str>) {
+        self.events.push("e".into());
+        self.errors += 1;
+    }
+    type Output = Rec;
+    fn finish(self) -> Rec {
+        self
+    }
+}
+
+fn parse_chunks(s: &str) -> Option<Vec<Vec<u8>>> {
+    s.split('|').map(parse_bytes).collect()
+}
+
+fn run_dec(chunks: &[Vec<u8>]) -> String {
+    let mut d = Utf8LossyDecoder::new(Rec::default());
+    for c in chunks {
+        d.process(ByteTendril::from_slice(c));
+    }
+    let r = d.finish();
+    // the text handed over must be valid UTF-8 by construction of StrTendril; double-check the bytes
+    if r.events.is_empty() {
+        "-".into()
+    } else {
+        r.events.join(";")
+    }
+}
+
+fn run_std(b: &[u8]) -> String {
+    match std::str::from_utf8(b) {
+        Ok(_) => "ok".into(),
+        Err(e) => format!(
+            "err {} {}",
+            e.valid_up_to(),
+            e.error_len().map(|n| n.to_string()).unwrap_or("-".into())
+        ),
+    }
+}
+
+/// reference: drive one encoding_rs decoder over the whole input until InputEmpty with last=true
+fn reference_decode(enc: &'static encoding_rs::Encoding, all: &[u8]) -> (String, usize) {
+    // LossyDecoder::new_encoding_rs routes UTF-8 to Utf8LossyDecoder (no BOM handling, like
+    // String::from_utf8_lossy); every other encoding gets `new_decoder()` (BOM sniffing).
+    let mut dec = if enc == encoding_rs::UTF_8 {
+        enc.new_decoder_without_bom_handling()
+    } else {
+        enc.new_decoder()
+    };
+    let mut out = String::new();
+    let mut errors = 0;
+    let mut pos = 0;
+    let mut guard = 0;
+    loop {
+        guard += 1;
+        assert!(guard < 100_000, "reference decode loop");
+        let mut buf = [0u8; 64];
+        let (res, read, written) = dec.decode_to_utf8_without_replacement(&all[pos..], &mut buf, true);
+        out.push_str(std::str::from_utf8(&buf[..written]).expect("decoder wrote invalid utf-8"));
+        pos += read;
+        match res {
+            encoding_rs::DecoderResult::InputEmpty => break,
+            encoding_rs::DecoderResult::OutputFull => {},
+            encoding_rs::DecoderResult::Malformed(_, _) => {
+                errors += 1;
+                out.push('\u{fffd}');
+            },
+        }
+    }
+    (out, errors)
+}
+
+fn run_enc(label: &str, chunks: &[Vec<u8>]) -> String {
+    let Some(enc) = encoding_rs::Encoding::for_label(label.as_bytes()) else {
+        return "bad-label".into();
+    };
+    let mut d: LossyDecoder<Rec> = LossyDecoder::new_encoding_rs(enc, Rec::default());
+    for c in chunks {
+        d.process(ByteTendril::from_slice(c));
+    }
+    let r = d.finish();
+    let all: Vec<u8> = chunks.concat();
+    let (wtext, werrs) = reference_decode(enc, &all);
+    let dtext = if enc == encoding_rs::UTF_8 {
+        enc.decode_without_bom_handling(&all).0
+    } else {
+        enc.decode(&all).0
+    };
+    format!(
+        "S={} {} ## W={} {} D={}",
+        show_str(&r.text),
+        r.errors,
+        show_str(&wtext),
+        werrs,
+        show_str(&dtext)
+    )
+}
+
+fn run_parse(kind: &str, chunks: &[Vec<u8>]) -> String {
+    let all: Vec<u8> = chunks.concat();
+    let lossy = String::from_utf8_lossy(&all).into_owned();
+    match kind {
+        "html" => {
+            let mut p = html5ever::parse_document(RcDom::default(), Default::default()).from_utf8();
+            for c in chunks {
+                p.process(ByteTendril::from_slice(c));
+            }
+            let a: RcDom = p.finish();
+            let b: RcDom = html5ever::parse_document(RcDom::default(), Default::default())
+                .one(StrTendril::from_slice(&lossy));
+            format!("T={} ## T={}", dump_dom(&a), dump_dom(&b))
+        },
+        "xml" => {
+            let mut p = xml5ever::driver::parse_document(RcDom::default(), Default::default()).from_utf8();
+            for c in chunks {
+                p.process(ByteTendril::from_slice(c));
+            }
+            let a: RcDom = p.finish();
+            let b: RcDom = xml5ever::driver::parse_document(RcDom::default(), Default::default())
+                .one(StrTendril::from_slice(&lossy));
+            format!("T={} ## T={}", dump_dom(&a), dump_dom(&b))
+        },
+        _ => "bad-case".into(),
+    }
+}
+
+pub fn run(fields: &[&str]) -> String {
+    match fields {
+        ["dec", chunks] => match parse_chunks(chunks) {
+            Some(c) => run_dec(&c),
+            None => "bad-case".into(),
+        },
+        ["std", bytes] => match parse_bytes(bytes) {
+            Some(b) => run_std(&b),
+            None => "bad-case".into(),
+        },
+        ["enc", spec, chunks] => match parse_chunks(chunks) {
+            Some(c) => run_enc(spec, &c),
+            None => "bad-case".into(),
+        },
+        ["parse", kind, chunks] => match parse_chunks(chunks) {
+            Some(c) => run_parse(kind, &c),
+            None => "bad-case".into(),
+        },
+        _ => "bad-case".into(),
+    }
 }
